@@ -152,10 +152,9 @@ func main() {
 			}
 		}
 	}
-	if !*plain {
-		if err := patchSelect(*goroot, *out, replace); err != nil {
-			die(2, "runtime select patch: %v", err)
-		}
+	// (also in plain mode: vsched links against the hook variable; outside a bubble the patch is inert)
+	if err := patchSelect(*goroot, *out, replace); err != nil {
+		die(2, "runtime select patch: %v", err)
 	}
 	js, _ := json.MarshalIndent(map[string]any{"Replace": replace}, "", " ")
 	if err := os.WriteFile(filepath.Join(*out, "overlay.json"), js, 0o644); err != nil {
